@@ -247,7 +247,14 @@ pub fn float_structural(res: &MP, wits: &[P], out: &mut Vec<&'static str>) {
                 }
             }
             if !nonempty {
-                out.push("C02 empty-hole");
+                // no witness inside: either the hole is degenerate (judged exactly), or it is a face thinner
+                // than the tolerance, which the property allows to skip (no judgement)
+                let mut d: Vec<(u64, u64)> = h.0.iter().map(|c| (c.x.to_bits(), c.y.to_bits())).collect();
+                d.sort();
+                d.dedup();
+                if d.len() < 3 || ring_area2(h) == 0.0 {
+                    out.push("C02 empty-hole");
+                }
             }
         }
     }
